@@ -88,9 +88,42 @@ def selftest(props=None, verbose=True):
     return res
 
 
+def seeded_test(props=None):
+    """changes written by independent sub-agents (/verif/seeded/<id>/patch.diff + meta.json)"""
+    base = os.path.join(VERIF, "seeded")
+    res = []
+    if not os.path.isdir(base):
+        return res
+    for d in sorted(os.listdir(base)):
+        mp = os.path.join(base, d, "meta.json")
+        pp = os.path.join(base, d, "patch.diff")
+        if not (os.path.exists(mp) and os.path.exists(pp)):
+            continue
+        meta = json.load(open(mp))
+        prop = meta.get("property")
+        if props and prop not in props:
+            continue
+        t0 = time.time()
+        try:
+            r = run_mutant(pp, [prop])
+        except CheckerError as e:
+            res.append({"property": prop, "mutant": "seeded/" + d, "status": "checker-error", "detail": str(e)[-300:]})
+            continue
+        if "_skipped" in r:
+            res.append({"property": prop, "mutant": "seeded/" + d, "status": "skipped", "detail": r["_skipped"]})
+            continue
+        rc, new = r[prop]
+        res.append({"property": prop, "mutant": "seeded/" + d, "status": "detected" if new else "missed",
+                    "fired": sorted({o["key"] for o in new})[:6], "wall_s": round(time.time() - t0, 1)})
+    return res
+
+
 def main(args):
     props = [a for a in args if a.startswith("C")] or None
-    res = selftest(props)
+    res = selftest(props) + seeded_test(props)
+    for r in res:
+        if r["mutant"].startswith("seeded/"):
+            print("[selftest] %s %s: %s %s" % (r["property"], r["mutant"], r["status"], r.get("fired", "")))
     bad = [r for r in res if r["status"] in ("missed", "checker-error")]
     print(json.dumps({"mutants": len(res), "detected": sum(1 for r in res if r["status"] == "detected"),
                       "missed": [r["mutant"] for r in res if r["status"] == "missed"],
